@@ -390,6 +390,34 @@ def run(index: RepoIndex, rep) -> None:
             rep.check(exc.startswith('ValueError('), 'C13.R1', RESET, name, e.line, src(e.stmt)[:100],
                       f'{name} raises `{exc[:40]}` for an invalid parameter combination, not '
                       f'ValueError', f'{name}: raises ValueError')
+    # the helpers the reset functions are built from (drawing, sampling) follow the same
+    # discipline: whatever they refuse, they refuse with ValueError -- an `assert` on their
+    # arguments turns an unsatisfiable request into AssertionError (or into nothing under -O)
+    for rel in ('gym_gridverse/design.py', 'gym_gridverse/rng.py'):
+        hm = index.module(rel)
+        for hname, hf in sorted(hm.functions.items()):
+            hw = walk_function(hf.node)
+            hparams = {p.arg for p in hf.params()}
+            for e in hw.events:
+                if e.kind != 'raise':
+                    continue
+                if isinstance(e.stmt, ast.Assert):
+                    if src(e.stmt.test) == 'False':
+                        continue
+                    # names of the test, through the locals they were computed from
+                    names = {n.id for n in ast.walk(hw.expand(e.stmt.test))
+                             if isinstance(n, ast.Name)}
+                    rep.check(not (names & hparams), 'C13.R1', rel, hname, e.line,
+                              src(e.stmt)[:100],
+                              f'{hname} checks its arguments by `assert` '
+                              f'({src(e.stmt.test)[:60]}): a reset function built on it fails '
+                              f'with AssertionError instead of ValueError',
+                              f'{hname}: no assert on arguments')
+                    continue
+                exc = src(e.value) if e.value is not None else ''
+                if exc and not exc.startswith(('ValueError(', 'NotImplementedError(')):
+                    rep.violation('C13.R1', rel, hname, e.line, src(e.stmt)[:100],
+                                  f'{hname} raises `{exc[:40]}`, not ValueError')
     for rel, fname in (('gym_gridverse/geometry.py', 'Area.__post_init__'),):
         f = index.func(rel, fname)
         w = walk_function(f.node)
